@@ -36,8 +36,8 @@ ASSUMPTIONS = ["input coordinates are read by the harness' own column reader; at
                "but moved atoms are compared in memory, so these are numerical-noise bounds)"]
 MIN = {"quick": {"input_heavy_atoms_compared": 15000, "torsion_calls_invivo": 200, "torsion_calls_direct": 1500,
                  "moved_side_chain_atoms": 40, "no_move_option_runs": 30},
-       "thorough": {"input_heavy_atoms_compared": 600000, "torsion_calls_invivo": 8000, "torsion_calls_direct": 60000,
-                    "moved_side_chain_atoms": 1500, "no_move_option_runs": 1200}}
+       "thorough": {"input_heavy_atoms_compared": 300000, "torsion_calls_invivo": 8000, "torsion_calls_direct": 60000,
+                    "moved_side_chain_atoms": 1500, "no_move_option_runs": 700}}
 FIXED = ("N", "CA", "C", "O", "OXT")
 
 
